@@ -463,7 +463,7 @@ static int c07_math(const char* fn, const char* sizefn, buf_t st, size_t size, i
 			word *d = ww(nn), *d2 = ww(nn / 2 + 1), *b = wo(2 * nn), *c = wo(2 * nn);
 			size_t mlen = 1 + (size_t)(rnd() % nn);
 			s2 = stk(ecMulA_deep(nn, ec->d, ec->deep, nn));
-			ecMulA(b, ec->base, ec, d, nn, s2.p);
+			if (!ecMulA(b, ec->base, ec, d, nn, s2.p)) wwCopy(b, ec->base, 2 * nn);   /* d*P == O: b is not written */
 			bfree(s2);
 			s2 = stk(ecMulA_deep(nn, ec->d, ec->deep, mlen));
 			ecMulA(c, ec->base, ec, d, mlen, s2.p);
@@ -521,6 +521,14 @@ static int c07_math(const char* fn, const char* sizefn, buf_t st, size_t size, i
 		CHK("gf2Create_deep");
 		if (m > 3 || dstuParamsStd(prm, names[m]) != ERR_OK) { free(prm); return 0; }
 		if (prm->p[0] != n) { free(prm); return 0; }
+		if (m != 0)
+		{
+			/* dstuParamsStd ships a base point only for the first curve: generate one (dstuPointGen, 6.8 of DSTU) */
+			octet* cst = (octet*)malloc(prngCOMBO_keep());
+			prngCOMBOStart(cst, (u32)(rnd() | 1));
+			if (dstuPointGen(prm->P, prm, prngCOMBOStepR, cst) != ERR_OK) { fprintf(stderr, "Assertion c07: dstuPointGen failed\n"); abort(); }
+			free(cst);
+		}
 		fb = balloc(gf2Create_keep(prm->p[0]));
 		f = (qr_o*)fb.p;
 		{ size_t* p4 = (size_t*)malloc(4 * sizeof(size_t)); int ok; p4[0] = prm->p[0]; p4[1] = prm->p[1]; p4[2] = prm->p[2]; p4[3] = prm->p[3];
@@ -545,7 +553,7 @@ static int c07_math(const char* fn, const char* sizefn, buf_t st, size_t size, i
 			word *d = ww(nn), *b = wo(2 * nn), *c = wo(2 * nn);
 			wwTrimHi(d, nn, prm->p[0] - 1);
 			s2 = stk(ecMulA_deep(nn, ec->d, ec->deep, nn));
-			ecMulA(b, ec->base, ec, d, nn, s2.p);
+			if (!ecMulA(b, ec->base, ec, d, nn, s2.p)) wwCopy(b, ec->base, 2 * nn);   /* d*P == O: b is not written */
 			bfree(s2);
 			s2 = stk(ec2IsValid_deep(nn));
 			ec2IsValid(ec, s2.p);
@@ -569,6 +577,24 @@ static int c07_math(const char* fn, const char* sizefn, buf_t st, size_t size, i
 			s2 = stk(ec2IsSafeGroup_deep(nn));
 			ec2IsSafeGroup(ec, 10, s2.p);
 			bfree(s2);
+			/* the point (0, sqrt(B)) lies on every curve y^2 + xy = x^3 + A x^2 + B and has order 2: d * a runs
+			   through the O-producing branches of the doubling/addition formulas (regression of d1f400e) */
+			{
+				word *a2 = ww(2 * nn), *d7 = ww(1), *o = wo(2 * nn);
+				size_t i;
+				buf_t s3 = stk(f->deep);
+				wwSetZero(a2, nn);
+				wwCopy(a2 + nn, ec->B, nn);
+				for (i = 1; i < prm->p[0]; ++i) qrSqr(a2 + nn, a2 + nn, f, s3.p);
+				bfree(s3);
+				s3 = stk(ecMulA_deep(nn, ec->d, ec->deep, 1));
+				d7[0] = 7;
+				if (!ecMulA(o, a2, ec, d7, 1, s3.p)) wwCopy(o, a2, 2 * nn);
+				d7[0] = 6;
+				if (!ecMulA(o, a2, ec, d7, 1, s3.p)) wwCopy(o, a2, 2 * nn);
+				bfree(s3);
+				wfree(a2, 2 * nn); wfree(d7, 1); wfree(o, 2 * nn);
+			}
 			wfree(d, nn); wfree(b, 2 * nn); wfree(c, 2 * nn);
 		}
 		bfree(eb); bfree(fb); free(prm);
